@@ -18,7 +18,18 @@
 #endif
 
 /* ------------------------------------------------------------------ native side */
-#include "skinny-internal.c"
+#include "skinny-internal.h"
+#ifdef TRACK_ALLOC
+/* C15-C17: the library's calloc/free are renamed (macro, no source change) to tracking wrappers */
+void *vh_calloc(size_t n, size_t sz); void vh_free(void *p);
+#define calloc vh_calloc
+#define free vh_free
+#endif
+/* back-end selection is C13's subject: here the probes are pinned so that the public init picks the generic
+   back end; the vector back ends are driven through their own entry points (in a replay these definitions
+   come first on the link line and take precedence over the library's) */
+int _skinny_has_vec128(void) { return 0; }
+int _skinny_has_vec256(void) { return 0; }
 #if CIPHER == 1
 #include "skinny128-cipher.c"
 #include "skinny128-ctr-internal.h"
